@@ -1,4 +1,5 @@
 import BddProofs.Derived
+import BddProofs.Total3
 import BddProofs.Cube
 import BddProofs.Clause
 import BddProofs.Init
@@ -46,6 +47,21 @@ theorem C15_clause {s : St} (hg : Good s) {lits : List Lit} (hd : (lits.map (·.
 theorem C15_empty (s : St) : cube s [] = .ok (s, Ref.one) ∧ clause s [] = .ok (s, Ref.zero) :=
   ⟨by simp [cube, sortLits, cubeFold], clause_nil s⟩
 
+/-- `cube` / `clause` over non-zero variables never panic except for "Storage is full" (also when
+variables repeat); a literal 0 is rejected by the code's assertion -/
+theorem C15_cube_terminates {V : Nat} {s : St} (hg : Good s) (hV : VarsLe s V) {lits : List Lit}
+    (h0 : ∀ l, l ∈ lits → l.1 ≠ 0) (hle : ∀ l, l ∈ lits → l.1 ≤ V) :
+    ((∃ s' r, cube s lits = .ok (s', r)) ∨ (∃ s', cube s lits = .error (.storageFull, s'))) ∧
+    (∀ e s', cube s lits = .error (e, s') → e = .storageFull) :=
+  let ⟨a, _, c⟩ := cube_total hg hV h0 hle
+  ⟨a, c⟩
+theorem C15_clause_terminates {V : Nat} {s : St} (hg : Good s) (hV : VarsLe s V) {lits : List Lit}
+    (h0 : ∀ l, l ∈ lits → l.1 ≠ 0) (hle : ∀ l, l ∈ lits → l.1 ≤ V) :
+    ((∃ s' r, clause s lits = .ok (s', r)) ∨ (∃ s', clause s lits = .error (.storageFull, s'))) ∧
+    (∀ e s', clause s lits = .error (e, s') → e = .storageFull) :=
+  let ⟨a, _, c⟩ := clause_total hg hV h0 hle
+  ⟨a, c⟩
+
 /-- non-vacuity: `mk_var(1)` in a fresh manager succeeds, so all hypotheses are inhabited -/
 example : ∃ s' r, mkVar s4 1 = .ok (s', r) ∧ Good s' ∧ Valid s'.nodes r (fun e => e 1) := by
   have h : ∃ s' r, mkVar s4 1 = .ok (s', r) := ⟨_, _, by rfl⟩
@@ -59,3 +75,5 @@ end P
 #print axioms P.C15_cube
 #print axioms P.C15_clause
 #print axioms P.C15_empty
+#print axioms P.C15_cube_terminates
+#print axioms P.C15_clause_terminates
